@@ -524,7 +524,7 @@ func isWriteAccess(fa ssa.Value) bool {
 						return true
 					}
 				case *ssa.Call:
-					if b, ok := y.Call.Value.(*ssa.Builtin); ok && (b.Name() == "delete" || b.Name() == "clear") && y.Call.Args[0] == ssa.Value(x) {
+					if b, ok := y.Call.Value.(*ssa.Builtin); ok && (b.Name() == "delete" || b.Name() == "clear") && rawArgs(y)[0] == ssa.Value(x) {
 						return true
 					}
 				}
